@@ -99,7 +99,7 @@ VAL = {"density": 2.5, "D": 1.5, "kf": 0.75, "kr": 0.25, "vol": 8.0, "state": [3
 FOREIGN = "G"      # explicit quantities of mode 2 are written in this system (m, ms, mol) whatever surrounds them
 
 
-def script_dict(level_units, explicit=False, graph=False, keywords=False):
+def script_dict(level_units, explicit=False, graph=False, keywords=False, default_state=False):
     """One physical system (all magnitudes given in SI-coherent 'm, s, mol' numbers VALSI) described with the units
     system U declared at `level` and bare numbers re-scaled to U; other levels inherit. level_units: dict level -> key."""
     def u(level):
@@ -144,6 +144,8 @@ def script_dict(level_units, explicit=False, graph=False, keywords=False):
     us_state = eff(sys_chain)
     system = dict({"network": network, "space": space,
                    "state": {"value": [x / F(us_state, (0, 0, 1)) for x in SI["state"]], "units": str(Units(SYS[us_state], UnitsDimensions(0, 0, 1)))}}, **decl("system"))
+    if default_state:
+        del system["state"]          # the state is then generated: density in the cell's environment x cell volume
     us_s = eff(["script"])
     d = dict({"system": system, "t_sample": [t / F(us_s, (0, 1, 0)) for t in SI["ts"]], "dt": num(SI["dt"], (0, 1, 0), ["script"], explicit),
               "t_max": num(SI["tmax"], (0, 1, 0), ["script"], explicit), "sampling_interval": num(SI["itv"], (0, 1, 0), ["script"], explicit)}, **decl("script"))
@@ -185,6 +187,19 @@ def nesting_invariance(lv1, u1, lv2, u2, explicit, graph=0):
     want = {"density": SI["density"], "D_A": SI["D"], "D_B": SI["D"] / 2, "k0": SI["kr"], "k1": SI["kf"], "vol": SI["vol"], "state": SI["state"], "dt": SI["dt"], "ts": SI["ts"],
             "tmax": SI["tmax"], "itv": SI["itv"]}
     return same_content(got, want) and same_content(ref, want)
+
+
+def default_state_invariance(lv1, u1, lv2, u2, graph=0):
+    """the GENERATED initial state (no explicit state: density x cell volume) is the same physical amount whatever level declares
+    which units - in particular when only the space, or only the network, declares its own"""
+    lu = {LEVELS[lv1 % 6]: KEYS[u1 % 11]}
+    lu[LEVELS[lv2 % 6]] = KEYS[u2 % 11]
+    d1, SI = script_dict(lu, False, bool(graph), default_state=True)
+    sc = rdscript_from_dict(d1)
+    st = sc.system.state
+    want = [SI["density"] * SI["vol"]] * 2 + [0.0, 0.0]
+    got = [si(st.get_at(i)) for i in range(4)]
+    return all(close(a, b) for a, b in zip(got, want))
 
 
 def keyword_invariance(lv1, u1, lv2, graph=0):
